@@ -105,6 +105,8 @@ class Job:
         L += ["close h0", "dump s0"]
         if reopen:
             L.append("open h1 s0 r")
+            # a read/write handle opened on the closed file and closed again without a call must leave it as it is
+            L += ["close h1", "open h2 s0 rw fmt=%08x ch=%d sr=%d" % (self.f.word, self.ch, self.sr), "close h2", "dump s0", "open h3 s0 r"]
         return "\n".join(L) + "\n"
 
     def model_line(self):
@@ -235,9 +237,12 @@ def writer_campaign(ctx, fmts, quick):
         stats["sessions"] += 1
         ctx.distinct.add("aiff:%s:c%d" % (j.f.name, j.ch))
         ctx.distinct.add("aiff:rate:%d" % j.sr if j.sr in RATES else "aiff:rate:seeded")
-        dumps = [parse_dump(l) for l in lines if l.startswith("len=")]
-        reopen = lines[-1] if lines else ""
-        if any(l.startswith(("CRASH", "ABORT", "TIMEOUT")) for l in lines) or len(dumps) != 3:
+        ops = script.strip().split("\n")
+        alld = [parse_dump(l) for l in lines if l.startswith("len=")]
+        dumps = alld[:3]
+        ro = [k for k, o in enumerate(ops) if o.startswith("open h1 ")]
+        reopen = lines[ro[0]] if ro and ro[0] < len(lines) else ""
+        if any(l.startswith(("CRASH", "ABORT", "TIMEOUT")) for l in lines) or len(alld) != 4 or len(lines) != len(ops):
             pred.append((j, name, script, ["the implementation died or the transcript is incomplete: %s" % (lines[-1:] or "")], reopen))
             continue
         mrep = [dict(t.split("=", 1) for t in r.split()) for r in (model[i] if i < len(model) else "").split(" | ")] if i < len(model) and model[i].startswith("hdr=") else []
@@ -261,6 +266,13 @@ def writer_campaign(ctx, fmts, quick):
                     if b[len(h):len(h) + dl] != bytes.fromhex(m["data"]):
                         diffs.append("%s: audio bytes %s, model (Enc.encodeAll) %s" % (where, b[len(h):len(h) + dl].hex()[:200], m["data"][:200]))
         probs = c04_predicate(j, dumps[2], reopen)
+        rw = lines[[k for k, o in enumerate(ops) if o.startswith("open h2 ")][0]]
+        if rw.startswith("open=ok"):
+            stats["rdwr_noop_probes"] += 1
+            if alld[3] != dumps[2]:
+                probs.append("opening the closed file read/write and closing it again changed its bytes: %s -> %s" % (dumps[2][:96].hex(), alld[3][:96].hex()))
+            elif lines[-1].split("frames=")[-1] != reopen.split("frames=")[-1]:
+                probs.append("after a read/write open + close a reader sees %s, before: %s" % (lines[-1], reopen))
         if probs:
             pred.append((j, name, script, probs, reopen))
         elif diffs:
@@ -296,7 +308,7 @@ def mutants(b, rng, full):
            b"NAME\x00\x00\x00\x02hi", b"FORM\x00\x00\x00\x04AIFF", b"big!\x00\x00\x9c\x40" + bytes(40000),
            b"NAME\x00\x00\x00\x03abc\x00", b"AUTH\x00\x00\x00\x05hello\x00", b"ANNO\x00\x00\x00\x00", b"(c) \x00\x00\x00\x04copy",
            b"NAME\x00\x00\x23\x28" + bytes(9000), b"AUTH\x00\x00\x1f\xfe" + bytes(8190), b"ANNO\x00\x00\x1f\xfd" + b"x" * 8189 + b"\x00",
-           b"APPL\x00\x00\x00\x03abc\x00", b"APPL\x00\x00\x00\x08m3gatext", b"APPL\x00\x00\x00\x07m3gaabc\x00", b"APPL\x00\x00\x00\x00",
+           b"APPL\x00\x00\x00\x03abc\x00", b"APPL\x00\x00\x00\x08m3gatext", b"APPL\x00\x00\x00\x07m3gaabc\x00", b"APPL\x00\x00\x00\x00", b"APPL\x00\x00\x00\x05m3gax\x00", b"APPL\x00\x00\x00\x04m3ga",
            b"COMT\x00\x00\x00\x0e\x00\x01\x00\x00\x00\x01\x00\x00\x00\x04text", b"COMT\x00\x00\x00\x0d\x00\x01\x00\x00\x00\x01\x00\x00\x00\x03abc\x00",
            b"COMT\x00\x00\x00\x14\x00\x02\x00\x00\x00\x01\x00\x00\x00\x00\x00\x00\x00\x02\x00\x07\x00\x02hi", b"COMT\x00\x00\x00\x04\x00\x05\x00\x00",
            b"INST\x00\x00\x00\x14" + bytes(range(20)), b"INST\x00\x00\x00\x06abcdef",
@@ -307,7 +319,7 @@ def mutants(b, rng, full):
     for x in (lim if full else rng.sample(lim, 3)):
         out.append(("limit:%s%d" % (x[:4].decode("latin1").strip(), struct.unpack(">I", x[4:8])[0]), b[:bounds[-1]] + x + b[bounds[-1]:]))
     for p in bounds:
-        for x in (ins if full else rng.sample(ins, 8)):
+        for x in (ins if full else rng.sample(ins, 12)):
             out.append(("ins@%d:%s" % (p, x[:4].hex()), b[:p] + x + b[p:]))
     out.append(("append-junk", b + b"tail\x00\x00\x00\x02ab"))
     out.append(("append-short", b + b"xy"))
@@ -429,11 +441,19 @@ def run(ctx, found=False):
     reported = False
     for (j, name, script, probs, reopen) in pred[:3]:
         reported = True
-        last = reopen if not any("size field" in p or "SSND" in p or "FORM" in p or "COMM" in p for p in probs) else None
+        rdwr = any("read/write" in p for p in probs)
+        last = reopen if not rdwr and not any("size field" in p or "SSND" in p or "FORM" in p or "COMM" in p for p in probs) else None
         text = "# C04 violated on the implementation's own transcript (AIFF container campaign)\n# format %s, %d channel(s), %d Hz, %d frames\n# %s\n" % (
             j.f.name, j.ch, j.sr, j.n, "; ".join(probs))
-        sc = script if last else j.script(reopen=False)
-        if last:
+        sc = script if (last or rdwr) else j.script(reopen=False)
+        if rdwr:
+            sc = "\n".join(script.strip().split("\n")[:-1]) + "\n"      # ends with the dump after the read/write open + close
+            lines, rc, err = ctx.script(sc)
+            if lines:
+                text += "observed-last %s\n" % lines[-1].strip()
+        elif last:
+            sl = script.strip().split("\n")
+            sc = "\n".join(sl[:[k for k, o in enumerate(sl) if o.startswith("open h1 ")][0] + 1]) + "\n"
             text += "observed-last %s\n" % last.strip()
         else:
             lines, rc, err = ctx.script(sc)
